@@ -12,7 +12,7 @@ ID = "C16"
 READY = True
 LEVEL = "exploration"
 WORKERS = {"quick": 8, "thorough": 16}
-BUDGET = {"quick": 48, "thorough": 600}
+BUDGET = {"quick": 56, "thorough": 600}
 MIN_NONTRIVIAL = {"quick": 150, "thorough": 3000}
 REQUIRED_HOOKS = ["schedule", "scheduling-point", "switch-inside-library-code", "stress-evaluation", "single-preemption-schedule"]
 RULE = (
@@ -20,7 +20,8 @@ RULE = (
     "in every thread) and evaluate their own bindings; every "
     "per-thread outcome is compared with the outcome of the same call run alone (computed single-threaded beforehand). Exploration: (1) a deterministic "
     "cooperative scheduler driven by sys.monitoring LINE events on src/celpy/*.py and the transpiler's '<string>' code -- (a) single preemption: thread A is paused at "
-    "line-point i of its run (construction and evaluation phases), thread B runs to completion, A resumes, for a stride of i covering A's whole run; (b) PCT-style "
+    "line-point i of its run (construction and evaluation phases), thread B runs to completion, A resumes; the points i are chosen by source site: the first "
+    "occurrence of every distinct line A executes, rarely executed lines (<= 2 occurrences: construction code, memo fill paths) first, then a stride over the rest; (b) PCT-style "
     "schedules with 2-3 change points; (c) random walks (p = 0.02 per point); same seed => same switch trace; (2) free-running stress with "
     "sys.setswitchinterval(1e-6). distinct_nontrivial = distinct switch traces with at least one switch inside library code, plus stress rounds."
 )
@@ -38,13 +39,23 @@ PROGRAMS = [
     ("size([k, k, k].filter(q, q % 2 == 0)) + k", "k", [1, 2, 3, 4]),
     ("has({'x': k}.x) && !has({'x': k}.y) ? k + 1 : k - 1", "k", [1, 2]),
     ("k.startsWith('a') || k.endsWith('z') ? k + '!' : k", "k", ["abc", "xyz", "mmm"]),
+    # conversions, text parsing, regular expressions, containers: other parts of the library that might keep state between calls
+    # (the same input converted twice in a row, then another one, then the first again: hit and miss paths of any memo)
+    ("string(duration(k) + duration(k)) + '|' + string(duration('1s') + duration(k)) + '|' + string(duration(k) > duration('1h'))", "k", ["90m", "24h", "10s", "1h1s"]),
+    ("string(timestamp(k).getFullYear() * 100 + timestamp(k).getMonth()) + '|' + string(timestamp(k) - timestamp('2000-01-01T00:00:00Z') > duration('0s')) + '|' + string(timestamp(k))", "k", ["2001-02-03T04:05:06Z", "1999-12-31T23:59:59+01:00", "2038-01-19T03:14:08Z"]),
+    ("int(k) * 2 + int(k) + size(k) + int(double(k)) + int('7') + int(k)", "k", ["12", "345", "-6"]),
+    ("(k.matches('^a+b') ? 1 : 0) + (k.matches('^a+b') ? 10 : 0) + (k.matches('b$') ? 100 : 0) + (k.matches('^a+b') ? 1000 : 0) + k.size()", "k", ["aab", "ab", "ba", "aaab"]),
+    ("{'x': k, 'y': [k]}.y[0] + {'x': k}.x + (k in [1, 2, 3] ? 100 : 200)", "k", [1, 2, 3, 5]),
+    ("string(k) + '/' + string(double(k)) + '/' + string(uint(k)) + '/' + string(type(k) == int)", "k", [1, 2, 3]),
+    ("bytes(k).size() * 10 + size(k + k)", "k", ["\u00e9", "ab", "", "\U0001f431"]),
 ]
 
 
-def bindings_for(prog, j):
+def bindings_for(prog, j, limit=None):
     src, var, vals = prog
     out = []
-    for v in vals:
+    vals = list(vals[j % len(vals) :]) + list(vals[: j % len(vals)])  # threads walk the values in different orders
+    for v in vals[:limit]:
         mvv = ("int", v * (j + 1)) if isinstance(v, int) else ("string", v)
         out.append({var: mvv})
     return out
@@ -88,16 +99,20 @@ class Explorer:
         self.acc = acc
         self.s = sched.Scheduler(interesting)
         self.traces = set()
+        self.solo_cache = {}
 
-    def run_schedule(self, kind, specs, policy, label):
+    def run_schedule(self, kind, specs, policy, label, limits=None):
         """specs: list of (runner, program); returns True when every thread matched its solo outcome."""
         acc = self.acc
         sinks = [[] for _ in specs]
         bodies = []
         solos = []
         for j, (runner, prog) in enumerate(specs):
-            bl = bindings_for(prog, j)
-            solos.append(solo(runner, prog, bl))
+            bl = bindings_for(prog, j, limits[j] if limits else None)
+            key = (runner, prog[0], j, limits[j] if limits else None)
+            if key not in self.solo_cache:
+                self.solo_cache[key] = solo(runner, prog, bl)  # the same calls made alone, single-threaded
+            solos.append(self.solo_cache[key])
             bodies.append(thread_work(runner, prog, bl, sinks[j]))
         self.s.install()
         ok_run = self.s.run(bodies, policy)
@@ -132,12 +147,29 @@ class Explorer:
                 )
         return good
 
-    def count_points(self, runner, prog):
+    def count_points(self, runner, prog, limit=None):
         """Number of scheduling points of thread A's solo run."""
         sink = []
         self.s.install()
-        self.s.run([thread_work(runner, prog, bindings_for(prog, 0), sink)], sched.never)
+        self.s.run([thread_work(runner, prog, bindings_for(prog, 0, limit), sink)], sched.never)
         return self.s.points_by_thread.get(0, 0)
+
+    def profile(self, runner, prog, limit=None):
+        """Solo run of thread A recording the source site of every scheduling point.
+        Returns (number of points, {site: index of its first occurrence}, {site: occurrences})."""
+        sink = []
+        self.s.install()
+        self.s.site_log = []
+        try:
+            self.s.run([thread_work(runner, prog, bindings_for(prog, 0, limit), sink)], sched.never)
+            log = self.s.site_log
+        finally:
+            self.s.site_log = None
+        first, count = {}, {}
+        for i, site in enumerate(log, 1):
+            first.setdefault(site, i)
+            count[site] = count.get(site, 0) + 1
+        return len(log), first, count
 
 
 def stress(acc, rnd, seconds, nthreads=4):
@@ -192,37 +224,54 @@ def run(ctx):
     core.celpy()
     ex = Explorer(acc)
     t_sched = ctx.budget_s * 0.75
-    # (a) single preemption, stride over A's points
+    # (a) single preemption.  A uniform stride over A's points samples loop bodies again and again and almost never lands in a
+    # window that is executed once (environment construction, the fill path of a memo); so the preemption points are chosen by
+    # SOURCE SITE: the first occurrence of every distinct line A executes, the rarely executed lines (<= 2 occurrences) first,
+    # then a stride over the remaining points.  A evaluates two activations (the second one sees what B left behind), B one.
     pairs = [("C", "C"), ("C", "I"), ("I", "C"), ("I", "I")]
     npairs = 3 if not ctx.thorough else 20
-    budget_each = t_sched * 0.5 / max(1, npairs)
+    budget_each = t_sched * 0.62 / max(1, npairs)
     for pi in range(npairs):
         ra, rb = pairs[(pi + ctx.worker) % len(pairs)]
-        pa, pb = rnd.choice(PROGRAMS), rnd.choice(PROGRAMS)
-        if pi % 3 == 2:
-            pb = pa  # a pool of threads evaluating the same expression text (own environments, different bindings)
-        n_a = ex.count_points(ra, pa)
+        # every program is thread A's program in some worker; two pairs in three run the SAME expression text in both threads
+        # (own environments, bindings walked in another order): interference through a memo needs both threads in the same library code
+        pa = PROGRAMS[(ctx.worker * npairs + pi + ctx.seed) % len(PROGRAMS)]
+        pb = pa if pi % 3 != 1 else rnd.choice(PROGRAMS)
+        lim = [2, 1] if not ctx.thorough else [3, 2]
+        n_a, first, count = ex.profile(ra, pa, lim[0])
         if n_a == 0:
             acc.inconclusive.append("no scheduling points observed in a solo run")
             break
-        want = 60 if not ctx.thorough else 400
+        rare = sorted(i for site, i in first.items() if count[site] <= 2)
+        common = sorted(i for site, i in first.items() if count[site] > 2)
+        rnd.shuffle(rare)
+        rnd.shuffle(common)
+        want = 40 if not ctx.thorough else 300
         stride = max(1, n_a // want)
+        extra = [i for i in range(1 + rnd.randrange(stride), n_a + 1, stride) if i not in first.values()]
         t0 = time.monotonic()
-        offset = rnd.randrange(stride)
-        done_all = True
-        for i in range(1 + offset, n_a + 1, stride):
-            if time.monotonic() - t0 > budget_each or ctx.expired():
-                done_all = False
-                break
-            ex.run_schedule("single-preemption", [(ra, pa), (rb, pb)], sched.single_preemption(i), f"{ra}{rb} point {i}/{n_a}")
-            acc.hook("single-preemption-schedule")
+        done = {"rare": 0, "common": 0, "stride": 0}
+        complete = True
+        for group, idxs in (("rare", rare), ("common", common), ("stride", extra)):
+            for i in idxs:
+                if time.monotonic() - t0 > budget_each or ctx.expired():
+                    complete = False
+                    break
+                ex.run_schedule("single-preemption", [(ra, pa), (rb, pb)], sched.single_preemption(i), f"{ra}{rb} point {i}/{n_a} ({group} site)", limits=lim)
+                acc.hook("single-preemption-schedule")
+                done[group] += 1
         acc.extra["single_preemption_points_total"] = acc.extra.get("single_preemption_points_total", 0) + n_a
-        if stride == 1 and done_all:
-            acc.exhaustive.append(f"every single-preemption point of one {ra}{rb} pair")
+        acc.extra["distinct_sites_in_A"] = acc.extra.get("distinct_sites_in_A", 0) + len(first)
+        acc.extra["rare_sites_in_A"] = acc.extra.get("rare_sites_in_A", 0) + len(rare)
+        acc.extra["rare_sites_preempted"] = acc.extra.get("rare_sites_preempted", 0) + done["rare"]
+        acc.extra["other_sites_preempted"] = acc.extra.get("other_sites_preempted", 0) + done["common"]
+        acc.extra["stride_points_preempted"] = acc.extra.get("stride_points_preempted", 0) + done["stride"]
+        if done["rare"] == len(rare) and done["common"] == len(common):
+            acc.exhaustive.append(f"single preemption at the first occurrence of every distinct source line of one {ra}{rb} pair ({len(first)} sites)")
     # (b) PCT-style and (c) random walks
     t1 = time.monotonic()
     j = 0
-    while time.monotonic() - t1 < t_sched * 0.4 and not ctx.expired():
+    while time.monotonic() - t1 < t_sched * 0.3 and not ctx.expired():
         j += 1
         nth = rnd.choice([2, 2, 3, 4])
         mix = rnd.choice(["CCCC", "IIII", "CICI", "ICCI"])[:nth]
